@@ -221,8 +221,7 @@ async fn refs_case(net: &Net, rng: &mut Rng) -> Case {
 async fn batch_boundary(net: &Net, k: u64) -> Case {
     let mut r = Runner::new(net, 2).await;
     let t0 = std::time::Instant::now();
-    batch_boundary_history(&mut r, k).await;
-    let f = r.settle(T0 + DAY, 3).await;
+    let f = batch_boundary_history(&mut r, k).await;
     r.case("C03Case", "batch_boundary", f, json!({"rows_of_the_day": k, "harness_seconds": t0.elapsed().as_secs_f64()}))
 }
 
@@ -273,7 +272,7 @@ async fn main() {
     out.push(two_versions(&net).await);
     out.push(batching(&net).await);
     out.push(batch_boundary(&net, 2048).await);
-    if tier_thorough() { for k in [2047, 2049, 4096] { out.push(batch_boundary(&net, k).await); } }
+    if tier_thorough() { for k in [2047, 2049] { out.push(batch_boundary(&net, k).await); } }
     out.push(concurrent_refs(&net, false).await);
     out.push(concurrent_refs(&net, true).await);
     out.push(ref_readd(&net).await);
